@@ -40,7 +40,7 @@ STUB = ["event loop + thread pool (SimLoop.run_in_executor)", "OS file system (S
 ASSUMPTIONS = ["process-death crash model", "single writer"]
 SHRINK_LISTS = ("points",)
 REQUIRED_PROBES = ["crash_before_open", "crash_after_truncate", "crash_between_writes", "crash_torn_write",
-                   "crash_before_close", "no_crash_reference", "post_crash_old", "post_crash_new"]
+                   "crash_before_close", "no_crash_reference", "post_crash_old", "post_crash_new", "session_mode"]
 
 
 def budget(tier):
@@ -67,6 +67,12 @@ def rand_snap(rng, big=False):
 
 def gen(seed: int, i: int, tier: str) -> dict:
     rng = random.Random(f"C15:{seed}:{i}")
+    if i % 5 == 4:
+        # session mode: the background saver (start/stop) is stopped while one of its saves is in flight and the
+        # final save follows at once; crash points run over the whole sequence of raw operations
+        return {"kind": "session", "old": rand_snap(rng), "mid": rand_snap(rng), "new": rand_snap(rng, big=rng.random() < 0.3),
+                "stop_at": rng.choice([0.0, 0.5, 1.5, 2.5, 3.5, 4.5, 900.5, 901.5, 903.5]),
+                "tapes": {"exec.lat": [rng.choice([0, 1, 2]) for _ in range(12)]}}
     old = rand_snap(rng)
     new = rand_snap(rng, big=rng.random() < 0.3)
     if rng.random() < 0.2:
@@ -85,6 +91,8 @@ def run(scn) -> RunResult:
 
     scn["points"] (optional, used by replay files) restricts the run to the listed [k, torn] points.
     """
+    if scn.get("kind") == "session":
+        return run_session(scn)
     res = RunResult()
     h = hashlib.sha256()
     with gc_paused():
@@ -204,6 +212,11 @@ def run(scn) -> RunResult:
 def simplify(scn):
     """Shrinking candidates: restrict to single crash points, smaller registries."""
     out = []
+    if scn.get("kind") == "session":
+        if not scn.get("points"):
+            for k in range(0, 16):
+                out.append(dict(scn, points=[[k, None]]))
+        return out
     if not scn.get("points"):
         for k in range(0, 12):
             out.append(dict(scn, points=[[k, None]]))
@@ -216,3 +229,103 @@ def simplify(scn):
             del d[n]
             out.append(dict(scn, **{key: d}))
     return out
+
+
+def _session_once(scn, crash_at, torn, record=None):
+    """Run start -> (time passes) -> registry changes -> stop on a fresh world. Returns (image, crashed, nops, journal)."""
+    import asyncio
+    import functools
+
+    pw = PWorld(scn.get("tapes"))
+    try:
+        old_nodes = build_nodes(scn["old"])
+        pw.disk.files[PATH] = bytearray(native_image(snapshot(old_nodes)).encode())
+        nodes = build_nodes(scn["mid"])
+        extra = build_nodes(scn["new"])
+        p = Persistence(nodes, PATH)
+        base = pw.disk.nops
+        pw.disk.crash_at = base + crash_at if crash_at is not None else None
+        pw.disk.torn = torn
+        if record is not None:
+            def on_submit(func):
+                if isinstance(func, functools.partial) and getattr(func.func, "__self__", None) is pw.disk \
+                        and "w" in func.keywords.get("mode", "r"):
+                    record.append(snapshot(nodes))
+                return None
+            pw.loop.on_exec_submit = on_submit
+
+        async def session():
+            await p.start()
+            if scn["stop_at"]:
+                await asyncio.sleep(scn["stop_at"])
+            nodes.update(extra)  # the registry changes while the saver may be in the middle of a save
+            await p.stop()
+
+        kind, val = pw.run(session(), horizon=2000)
+        # give orphaned jobs / tasks (if any) the chance to hit the disk, as they would in a live process
+        if not pw.loop.crashed:
+            pw.loop.run_until_idle(50)
+        journal = [ev for ev in pw.disk.journal if ev[0] in ("open", "write", "close", "rename", "truncate", "remove")
+                   and ev[1] == PATH]
+        return pw.disk.image(PATH), pw.loop.crashed, pw.disk.nops - base, journal, kind, val, pw.elog.digest(), pw.loop.time()
+    finally:
+        pw.close()
+
+
+def run_session(scn) -> RunResult:
+    res = RunResult()
+    h = hashlib.sha256()
+    with gc_paused():
+        snaps: list = []
+        image, crashed, nops, journal, kind, val, dg, vt = _session_once(scn, None, None, record=snaps)
+        h.update(dg.encode())
+        if kind != "ok":
+            raise RuntimeError(f"reference session failed: {kind} {val!r}")
+        old_snap = snapshot(build_nodes(scn["old"]))
+        final_snap = snapshot({**build_nodes(scn["mid"]), **build_nodes(scn["new"])})
+        candidates = [old_snap] + snaps + [final_snap]
+        cand_images = [native_image(c).encode() for c in candidates]
+        points = [(k, None) for k in range(nops + 1)]
+        if scn.get("points"):
+            points = [tuple(p) for p in scn["points"]]
+        res.probes["session_mode"] += 1
+        res.states.add(("C15s", nops))
+        for k, torn in points:
+            res.ops += 1
+            image, crashed, _n, _j, kind, val, dg, vt = _session_once(scn, k if k < nops else None, torn)
+            h.update(dg.encode())
+            res.vt += vt
+            if crashed:
+                res.faults["crash"] += 1
+                res.probes["crash_in_session"] += 1
+            pw = PWorld({})
+            try:
+                if image is not None:
+                    pw.disk.files[PATH] = bytearray(image)
+                loaded: dict = {}
+                o, v = pw.run(Persistence(loaded, PATH).load())
+                got = snapshot(loaded)
+            finally:
+                pw.close()
+            if o == "ok" and got in candidates:
+                res.probes["post_crash_old" if got == old_snap else "post_crash_new"] += 1
+                continue
+            if image in cand_images:
+                icls = "new-image"
+            elif image == b"":
+                icls = "truncated-empty"
+            elif image is not None and any(ci.startswith(image) for ci in cand_images):
+                icls = "partial-new"
+            elif image is None:
+                icls = "file-missing"
+            else:
+                icls = "garbage"
+            lres = ("empty-registry" if not got else "other-registry") if o == "ok" else \
+                ("read-error" if isinstance(v, PersistenceReadError) else f"error:{type(v).__name__ if v is not None else o}")
+            res.violate(PROP, "post-crash-load", f"{icls}:{lres}",
+                        f"session mode: crash at raw op {k}/{nops}: image {len(image) if image is not None else None} bytes; "
+                        f"loaded {o} {v!r}; stop_at={scn['stop_at']}; replay with points=[[{k}, null]]"[:600])
+        res.probes["crash_points"] += len(points)
+    res.digest = h.hexdigest()
+    res.nontrivial_key = ("C15s", scn["old"], scn["mid"], scn["new"], scn["stop_at"], scn["tapes"])
+    return res
